@@ -60,8 +60,14 @@ func newExec(p *Prog, name string) *Exec {
 		e.arrSort[n] = fs[n]
 		e.allArr = append(e.allArr, arrInfo{n, fs[n]})
 	}
+	for _, gn := range sortedKeys(p.CS.GhostFields) {
+		k, _ := e.specType("", p.CS.GhostFields[gn])
+		e.arrSort["GF_"+gn] = sortsOf(k)[0]
+		e.allArr = append(e.allArr, arrInfo{"GF_" + gn, sortsOf(k)[0]})
+	}
 	for _, n := range []string{"SEQ_Int", "SEQ_String", "SEQ_Bool", "LEN", "BOX_Int", "BOX_Bool", "BOX_String", "BOX_Bytes_s", "BOX_Bytes_n",
-		"CELL_Int", "CELL_Bool", "CELL_String", "CELL_Bytes_s", "CELL_Bytes_n"} {
+		"CELL_Int", "CELL_Bool", "CELL_String", "CELL_Bytes_s", "CELL_Bytes_n",
+		"MAPD_Int", "MAPD_String", "MAPV_Int_Int", "MAPV_Int_Bool", "MAPV_Int_String", "MAPV_String_Int", "MAPV_String_Bool", "MAPV_String_String"} {
 		s := p.arrSortByName(n)
 		e.arrSort[n] = s
 		e.allArr = append(e.allArr, arrInfo{n, s})
